@@ -265,7 +265,8 @@ class Run:
             R = self.spec_bool(region, self.x.post_frame(self, self.entry_frame))
             self._in_finding = True
             try:
-                self.oblige(name, z3.Or(goal, R), kind, note + " [outside the region of a known finding]")
+                outside = z3.And(*[z3.Or(g_, R) for g_ in _flatten_and(goal)]) if z3.is_and(goal) and goal.num_args() > 1 else z3.Or(goal, R)
+                self.oblige(name, outside, kind, note + " [outside the region of a known finding]")
                 self.oblige("finding@" + name, z3.And(z3.Not(goal), R), kind="finding", expect_sat=True, note="known finding still reproduces inside its region")
             finally:
                 self._in_finding = False
